@@ -596,6 +596,22 @@ def bounded(tier, seed, R):
                     hits = [i + 1 for i, x in enumerate(arr) if isinstance(x, str) and wildcard_match(pat, x)]
                     return r == (hits[0] if hits else NA_ERROR)
                 R.guard('_match/wildcard', chk, {'pattern': pat, 'array': list(arr)})
+    # every wildcard pattern up to length 3 (4 thorough) over {a, b, ?, *} against every vector of one or two texts up to
+    # length 3 over {a, B, ?} (and a number / a blank, which a text pattern never matches)
+    plen = 3 if not thorough else 4
+    wpats = [''.join(t) for k in range(1, plen + 1) for t in itertools.product('ab?*', repeat=k)]
+    wpats = [p_ for p_ in wpats if '*' in p_ or '?' in p_]
+    wtexts = [''.join(t) for k in range(0, 4) for t in itertools.product('aB?', repeat=k)] + [5, None]
+    for p_ in wpats:
+        for x1 in wtexts:
+            for x2 in (wtexts if thorough else wtexts[::5]):
+                arr2 = [x1, x2]
+
+                def chk():
+                    r = LK._match(p_, arr2, 0)
+                    hits = [i + 1 for i, x in enumerate(arr2) if isinstance(x, str) and wildcard_match(p_, x)]
+                    return r == (hits[0] if hits else NA_ERROR)
+                R.guard('_match/wildcard', chk, {'pattern': p_, 'array': arr2})
     # tables
     vals = [1, 2, 3, 'a', 'b', None, True, 2.5]
     for _ in range(300 if not thorough else 5000):
